@@ -40,6 +40,8 @@ def enc(v, t):
         return '"%s"%%string' % v
     if t in ('tail', 'none'):
         return 'tt'
+    if t == 'arr':
+        return '(v_id (%d, %d, %d)%%Z)' % tuple(v)
     if is_t(t, 'tuple'):
         if len(t[1]) == 0:
             return 'tt'
@@ -81,6 +83,10 @@ def to_py(v, t):
         return float(v)
     if t == 'Z':
         return int(v)
+    if t == 'arr':
+        import numpy as np
+        n = int(v[0] * v[1] * v[2])
+        return (np.arange(n, dtype=np.int64) + 1).reshape(tuple(v))
     if is_t(t, 'tuple'):
         return tuple(to_py(x, tt) for x, tt in zip(v, t[1]))
     if is_t(t, 'list'):
@@ -165,9 +171,17 @@ def run_impl(fns, cases):
         params = [(p, tt(t)) for p, t in f['params']]
         ret = tt(f['ret_ty'])
         pyargs = [to_py(a, t) for a, (_, t) in zip(c.args, params)]
+        is_arr = ret == 'arr'
+        if is_arr:
+            ret = ('tuple', (('tuple', ('Z', 'Z', 'Z')), ('list', 'Z')))
+            sh0 = next(a for a, (_, t) in zip(c.args, params) if t == 'arr')
         try:
             r = pyf(*pyargs)
             c.kind = 'ok'
+            if is_arr:
+                if r.ndim != 3:
+                    raise TypeError('result is not 3-D')
+                r = (tuple(int(x) for x in r.shape), [int(x) for x in r.reshape(-1)])
             c.expected = canon_result(r, ret)
         except Exception as e:  # noqa
             nm = type(e).__name__
@@ -176,6 +190,9 @@ def run_impl(fns, cases):
             c.kind = nm if nm in EXN else 'Other:' + nm
             c.expected = None
         call = f['name'] + ' ' + ' '.join(enc(a, t) for a, (_, t) in zip(c.args, params))
+        if is_arr:
+            rnd = 'render (%d, %d, %d)%%Z' % tuple(sh0)
+            call = ('res_map (%s) (%s)' % (rnd, call)) if f['raises'] else ('%s (%s)' % (rnd, call))
         chk = chk_of(ret)
         if f['raises']:
             if c.kind == 'ok':
@@ -203,7 +220,7 @@ def run_coq(tag, cases, coq_modules, shard=400, jobs=8):
         name = '%s_%d' % (tag, k // shard)
         path = os.path.join(cdir, name + '.v')
         with open(path, 'w') as f:
-            f.write('From DV.lib Require Import PyNum PyRt Corr.\n')
+            f.write('From DV.lib Require Import PyNum PyRt Corr.\nFrom DV.model Require Import Arrays NpRt.\n')
             for m in coq_modules:
                 f.write('From DV.gen Require Import %s.\n' % m)
             f.write('Open Scope Q_scope.\n')
@@ -253,6 +270,8 @@ def describe(c, fns):
     def j(v):
         if isinstance(v, Fr):
             return float(v)
+        if isinstance(v, (list, tuple)) and len(v) > 40:
+            return [j(x) for x in v[:40]] + ['...']
         if isinstance(v, (list, tuple)):
             return [j(x) for x in v]
         return v
